@@ -53,10 +53,8 @@ CSpec == CInit /\ [][CNext]_cvars
 
 (* never more memory than max(maxmem, 1 MiB) *)
 Bounded == buf <= Clamp(m)
-(* the loop ends: at most one attempt per doubling, plus one *)
-RECURSIVE Log2Up(_)
-Log2Up(x) == IF x <= 1 THEN 0 ELSE 1 + Log2Up((x + 1) \div 2)
-Terminates == iter <= Log2Up((Clamp(m) + Start - 1) \div Start) + 1
+(* the loop ends - at most one attempt per doubling, plus one: Terminates, in MC_Web (its
+   recursive logarithm is outside what the proof system reads) *)
 (* complete iff the last dump was smaller than the buffer; a dump that is
    smaller than maxmem is never reported truncated                           *)
 CompleteIff == state = "complete" => n = dump /\ dump < buf
